@@ -178,7 +178,7 @@ def run(ctx, rep: Report, deep: bool = False):
         ["../esc", "ok"], ["a/b", "a\\b"], ["Same", "Same"], ["x", "x", "x (2)"], ["..", "."], ["C:", "con."], ["  lead", "trail  "],
         [None, "Untitled Track 1"], ["A L", "A R"], ["\x01ctl", "tab\there"], ["/abs", "~"], ["A.", "A"],
     ]
-    for t in hostile[: (len(hostile) if full else 11)]:
+    for t in hostile[: (len(hostile) if full else 12)]:
         oracle_cdda(rep, t)
         rep.feat("cdda_hostile_titles")
     for i in range(ctx.n(6, 60)):
